@@ -5,7 +5,13 @@ from the header bytes with struct; the array is the `count` records of `record l
 laspy (every version/format, extra dimensions) and files laspy did not write (extra bytes without ExtraBytes VLR, a VLR that
 documents fewer bytes than the records carry, a VLR although the records carry none, bytes after the last record, a gap before
 the EVLRs). Correspondence: the reader's stride / offset / count vs dec_header of Model/Las.v; the bytes returned by every call
-vs the byte ranges of brun. Search: the abstract cursor of the property, restated in Python, against the implementation."""
+vs the byte ranges of brun / bfrun. Search: the abstract cursor of the property, restated in Python, against the implementation.
+Histories also contain (Model/CursorFault.v): FAULTS - the source raises once during a call (read / readinto for the three kinds of read,
+seek for seek) before consuming or moving anything, the exception is caught and the history goes on: a failed call is a no-op on the
+cursor - and CALLER operations on the objects the reader handed out (the LasData of read(): extra dimensions added / removed through the
+LasData, its header, its point format; points replaced; header fields, VLRs, version / format edited; written out; a chunk wrapped
+into a LasData): the reader must be unaffected."""
+import copy
 import io
 import logging
 import os
@@ -20,19 +26,35 @@ ASSUMPTIONS = ["uncompressed files; the point source holds a complete file (Byte
 SOURCES = ["bytesio", "bytesio", "ctor", "noreadinto", "file"]
 
 
-def gen_history(rng, n):
+def gen_history(rng, n, faults=True, caller=True):
+    """ops: ("R", n) read_points | ("S", pos, whence) seek | ("N", k) next(chunk_iterator(k)) | ("A",) read()
+            | ("F", kind, op) op during which the source raises once: kind "r" = on its next read / readinto of point data,
+              "k" = on its next seek into the point data (a kind the op never uses cannot show: the op is then the plain one)
+            | ("M", what, which) caller operation number `what` on the `which`-th object the reader handed out"""
     ops = []
     around = [0, 1, -1, n, n - 1, n + 1, -n, -n - 1, -n + 1, 2, 3, n // 2, 10 ** 9, -10 ** 9]
+    p_fault = rng.choice([0, 0, 0.1, 0.3]) if faults else 0
+    p_caller = rng.choice([0, 0.5, 0.5, 1]) if caller else 0
     for _ in range(rng.randrange(1, 25)):
         r = rng.random()
-        if r < 0.35:
-            ops.append(("R", rng.choice(around + [rng.randrange(-3, n + 5)])))
-        elif r < 0.7:
-            ops.append(("S", rng.choice(around + [rng.randrange(-n - 3, n + 4)]), rng.choice([0, 0, 1, 1, 2, 2, 3])))
-        elif r < 0.93:
-            ops.append(("N", rng.choice([1, 2, 3, 5, max(1, n // 3), n + 1, 50])))
+        if r < 0.33:
+            op = ("R", rng.choice(around + [rng.randrange(-3, n + 5)]))
+        elif r < 0.64:
+            op = ("S", rng.choice(around + [rng.randrange(-n - 3, n + 4)]), rng.choice([0, 0, 1, 1, 2, 2, 3]))
+        elif r < 0.85:
+            op = ("N", rng.choice([1, 2, 3, 5, max(1, n // 3), n + 1, 50]))
+        elif r < 0.95 or not p_caller:
+            op = ("A",)
         else:
-            ops.append(("A",))
+            op = ("M", rng.randrange(len(CALLER_OPS)), rng.randrange(4))
+        if op[0] != "M" and rng.random() < p_fault:
+            own = "k" if op[0] == "S" else "r"
+            op = ("F", own if rng.random() < 0.85 else ("r" if own == "k" else "k"), op)
+        ops.append(op)
+        if op[0] == "A" and rng.random() < p_caller:
+            # what the caller does with the LasData it just got
+            for _ in range(rng.choice([1, 1, 2])):
+                ops.append(("M", rng.randrange(len(CALLER_OPS)), 0))
     return ops
 
 
@@ -43,13 +65,38 @@ def op_tok(op):
         return f"N{op[1]}"
     if op[0] == "S":
         return f"S{op[1]}:{op[2]}"
+    if op[0] == "F":
+        return f"!{op[1]}{op_tok(op[2])}"
+    if op[0] == "M":
+        return f"M{op[1]}.{op[2]}"
     return "A"
+
+
+def op_letter(op):
+    return "!" + op[2][0] if op[0] == "F" else op[0]
+
+
+def fault_shows(op):
+    """the kind of fault is one the operation can meet (reads never seek the source, seek never reads it)"""
+    return op[0] == "F" and op[1] == ("k" if op[2][0] == "S" else "r")
+
+
+def model_tok(op):
+    """the operation as the model sees it (Model/CursorFault.v)"""
+    if op[0] == "F":
+        return ("!" if fault_shows(op) else "") + op_tok(op[2])
+    return "M" if op[0] == "M" else op_tok(op)
 
 
 def parse_ops(toks):
     ops = []
     for t in toks:
-        if t[0] == "S":
+        if t[0] == "!":
+            ops.append(("F", t[1], parse_ops([t[2:]])[0]))
+        elif t[0] == "M":
+            a, b = t[1:].split(".")
+            ops.append(("M", int(a), int(b)))
+        elif t[0] == "S":
             p, w = t[1:].split(":")
             ops.append(("S", int(p), int(w)))
         elif t[0] in "RN":
@@ -145,8 +192,201 @@ class NoReadinto:
         self._b.close()
 
 
-def open_reader(raw, source, read_evlrs, tmp):
+class InjectedFault(OSError):
+    pass
+
+
+class Flaky:
+    """a seekable binary stream (read / seek / tell) that, when armed, raises ONCE: kind "r" on the next read / readinto that would
+    deliver point data (the stream stands inside [lo, hi)), kind "k" on the next absolute seek to a position inside [lo, hi);
+    nothing is consumed and the position does not move when it raises"""
+
+    def __init__(self, raw, lo, hi):
+        self._b = io.BytesIO(raw)
+        self._lo, self._hi = lo, hi
+        self.armed = None
+        self.fired = False
+
+    def arm(self, kind):
+        self.armed, self.fired = kind, False
+
+    def disarm(self):
+        self.armed = None
+
+    def _fault(self, kind, pos):
+        if self.armed == kind and self._lo <= pos < self._hi:
+            self.armed, self.fired = None, True
+            raise InjectedFault(f"injected transient fault ({'read' if kind == 'r' else 'seek'} at byte {pos})")
+
+    def read(self, n=-1):
+        self._fault("r", self._b.tell())
+        return self._b.read(n)
+
+    def seek(self, pos, whence=0):
+        if whence == 0:
+            self._fault("k", pos)
+        return self._b.seek(pos, whence)
+
+    def tell(self):
+        return self._b.tell()
+
+    def seekable(self):
+        return True
+
+    def readable(self):
+        return True
+
+    def close(self):
+        self._b.close()
+
+
+class FlakyReadinto(Flaky):
+    def readinto(self, b):
+        self._fault("r", self._b.tell())
+        return self._b.readinto(b)
+
+
+# ---------------------------------------------------------------------------------
+# what a caller may do with the objects the reader handed out: (las, rec, rd) = a LasData returned by read() (or None), a record
+# returned by read_points / next (or None), the reader (only read from: its header is copied). Exceptions are the caller's business.
+# ---------------------------------------------------------------------------------
+def _extra_names(las):
+    return list(las.point_format.extra_dimension_names)
+
+
+def _c_add_dim(las, rec, rd):
     import laspy
+    las.add_extra_dim(laspy.ExtraBytesParams(f"c{len(_extra_names(las))}", "u4"))
+
+
+def _c_add_dims(las, rec, rd):
+    import laspy
+    k = len(_extra_names(las))
+    las.add_extra_dims([laspy.ExtraBytesParams(f"c{k}", "u1"), laspy.ExtraBytesParams(f"c{k + 1}", "3f8")])
+
+
+def _c_remove_dims(las, rec, rd):
+    las.remove_extra_dims(_extra_names(las))
+
+
+def _c_remove_dim(las, rec, rd):
+    las.remove_extra_dim(_extra_names(las)[0])
+
+
+def _c_points_subset(las, rec, rd):
+    las.points = las.points[::2]
+
+
+def _c_points_new(las, rec, rd):
+    import laspy
+    las.points = laspy.ScaleAwarePointRecord.zeros(3, header=las.header)
+
+
+def _c_count_zero(las, rec, rd):
+    las.header.point_count = 0
+
+
+def _c_count_big(las, rec, rd):
+    las.header.point_count = 10 ** 6
+
+
+def _c_offset(las, rec, rd):
+    las.header.offset_to_point_data += 13
+
+
+def _c_format_add_in_place(las, rec, rd):
+    import laspy
+    las.header.point_format.add_extra_dimension(laspy.ExtraBytesParams(f"p{len(_extra_names(las))}", "u2"))
+
+
+def _c_format_remove_in_place(las, rec, rd):
+    las.point_format.remove_extra_dimension(_extra_names(las)[0])
+
+
+def _c_version_format(las, rec, rd):
+    import laspy
+    from laspy.header import Version
+    las.header.set_version_and_point_format(Version(1, 4), laspy.PointFormat(7 if las.header.point_format.id < 6 else 6))
+
+
+def _c_header_format(las, rec, rd):
+    import laspy
+    las.header.point_format = laspy.PointFormat(0 if las.header.point_format.id else 1)
+
+
+def _c_vlrs(las, rec, rd):
+    from laspy.vlrs.vlrlist import VLRList
+    las.header.vlrs = VLRList()
+    las.header.evlrs = None
+    las.header.number_of_evlrs = 0
+    las.header.start_of_first_evlr = 0
+
+
+def _c_scaling(las, rec, rd):
+    las.header.scales = [7.0, 7.0, 7.0]
+    las.header.offsets = [1.0, 2.0, 3.0]
+
+
+def _c_update_header(las, rec, rd):
+    las.update_header()
+
+
+def _c_header_dims(las, rec, rd):
+    import laspy
+    las.header.add_extra_dims([laspy.ExtraBytesParams(f"h{len(_extra_names(las))}", "i8")])
+
+
+def _c_header_remove_dims(las, rec, rd):
+    las.header.remove_extra_dims(_extra_names(las))
+
+
+def _c_values(las, rec, rd):
+    las.points.array[:] = 0
+
+
+def _c_write(las, rec, rd):
+    las.write(io.BytesIO())
+
+
+def _c_header_extra_bytes(las, rec, rd):
+    las.header.extra_header_bytes = b"caller" * 3
+    las.header.extra_vlr_bytes = b"\0" * 11
+
+
+def _c_change_scaling(las, rec, rd):
+    las.change_scaling(scales=[0.5, 0.5, 0.5])
+
+
+def _c_wrap_chunk(las, rec, rd):
+    import laspy
+    l2 = laspy.LasData(header=copy.deepcopy(rd.header), points=rec)
+    l2.add_extra_dim(laspy.ExtraBytesParams("w", "u4"))
+    l2.header.point_count = 0
+    l2.update_header()
+
+
+def _c_wrap_chunk_remove(las, rec, rd):
+    import laspy
+    l2 = laspy.LasData(header=copy.deepcopy(rd.header), points=rec)
+    l2.remove_extra_dims(list(l2.point_format.extra_dimension_names))
+
+
+def _c_convert(las, rec, rd):
+    import laspy
+    laspy.convert(las, point_format_id=7 if las.header.point_format.id < 6 else 3)
+
+
+CALLER_OPS = [_c_add_dim, _c_add_dim, _c_add_dims, _c_remove_dims, _c_remove_dim, _c_points_subset, _c_points_new, _c_count_zero, _c_count_big,
+              _c_offset, _c_format_add_in_place, _c_format_remove_in_place, _c_version_format, _c_header_format, _c_vlrs, _c_scaling,
+              _c_update_header, _c_header_dims, _c_header_remove_dims, _c_values, _c_write, _c_header_extra_bytes, _c_change_scaling,
+              _c_wrap_chunk, _c_wrap_chunk_remove, _c_convert]
+
+
+def open_reader(raw, source, read_evlrs, tmp, flaky=None):
+    import laspy
+    if flaky is not None:
+        # a history with faults: the same kinds of stream, wrapped (a path is opened by the caller)
+        return laspy.LasReader(flaky, read_evlrs=read_evlrs) if source == "ctor" else laspy.open(flaky, read_evlrs=read_evlrs)
     if source == "ctor":
         return laspy.LasReader(io.BytesIO(raw), read_evlrs=read_evlrs)
     if source == "noreadinto":
@@ -166,12 +406,30 @@ def run_impl(raw, ops, source="bytesio", read_evlrs=True, npints=False):
     read must not overwrite an earlier result)."""
     import numpy as np
     wrap = (lambda v: np.int64(v)) if npints else (lambda v: v)
-    outs, iters, kept, tmp = [], {}, [], []
+    outs, iters, kept, tmp, handed = [], {}, [], [], []
+    flaky = None
+    if any(o[0] == "F" for o in ops):
+        _, off, L, n = layout_of(raw)
+        flaky = (Flaky if source == "noreadinto" else FlakyReadinto)(raw, off, off + n * L)
     logging.disable(logging.CRITICAL)
     try:
-        with open_reader(raw, source, read_evlrs, tmp) as rd:
+        with open_reader(raw, source, read_evlrs, tmp, flaky) as rd:
             facts = {"stride": int(rd.header.point_format.size), "offset": int(rd.header.offset_to_point_data), "count": int(rd.header.point_count)}
             for op in ops:
+                if op[0] == "M":
+                    las = handed[op[2] % len(handed)] if handed else None
+                    rec = kept[op[2] % len(kept)][1] if kept else None
+                    fn = CALLER_OPS[op[1] % len(CALLER_OPS)]
+                    try:
+                        if (las is not None) or (rec is not None and fn.__name__.startswith("_c_wrap")):
+                            fn(las, rec, rd)
+                    except Exception:  # noqa
+                        pass
+                    outs.append(("m",))
+                    continue
+                if op[0] == "F":
+                    flaky.arm(op[1])
+                    op = op[2]
                 try:
                     if op[0] == "R":
                         r = rd.read_points(wrap(op[1]))
@@ -187,10 +445,17 @@ def run_impl(raw, ops, source="bytesio", read_evlrs=True, npints=False):
                     elif op[0] == "S":
                         outs.append(("k", int(rd.seek(wrap(op[1]), op[2]))))
                     else:
-                        p = rd.read().points
+                        las = rd.read()
+                        p = las.points
                         outs.append(("s", bytes(p.memoryview()), len(p)))
+                        handed.insert(0, las)
+                except InjectedFault:
+                    outs.append(("e", "fault"))
                 except Exception as ex:  # noqa
                     outs.append(("e", common.exc_kind(ex)))
+                finally:
+                    if flaky is not None:
+                        flaky.disarm()
             for i, r in kept:
                 now = bytes(r.memoryview())
                 if now != outs[i][1]:
@@ -210,6 +475,21 @@ def spec_py(n, ops):
     c = 0
     outs = []
     for op in ops:
+        if op[0] == "M":
+            # nothing a caller does to what it was handed reaches the reader
+            outs.append(("m",))
+            continue
+        if op[0] == "F":
+            shows, op = fault_shows(op), op[2]
+            if op[0] == "S":
+                t = op[1] if op[2] == 0 else (c + op[1] if op[2] == 1 else n + op[1] if op[2] == 2 else -1)
+                reaches = 0 <= t < n
+            else:
+                reaches = c < n
+            if shows and reaches:
+                # the source raised before consuming anything: the call failed, the cursor is where it was
+                outs.append(("e", "fault"))
+                continue
         if op[0] in ("R", "N", "A"):
             k = -1 if op[0] == "A" else op[1]
             m = (n - c) if k < 0 else min(k, n - c)
@@ -276,6 +556,10 @@ def make_files(ctx):
         for n in ([0, 1, 23] if not ctx.thorough() else [0, 1, 2, 23, 64]):
             raw, h, ne = base_file(rng, version, fmt, n, 0)
             files.append((raw, f"{version}/fmt{fmt}/n{n}/evlrs{ne}/standard-size", 1.0))
+    # point data larger than 64 KiB (the block sizes of buffered / read-ahead / chunked sources), a record length that divides 65536 or not
+    for version, fmt, n in [("1.2", 0, 3300), ("1.4", 6, 2200)] + ([("1.2", 1, 70000), ("1.4", 7, 40000)] if ctx.thorough() else []):
+        raw, h, ne = base_file(rng, version, fmt, n, 0)
+        files.append((raw, f"{version}/fmt{fmt}/n{n}/evlrs{ne}/standard-size", 0.25))
     # record length larger than the format's standard size, in every version / format:
     #   exact   the ExtraBytes VLR documents exactly all extra bytes (what laspy writes)
     #   fewer   the VLR documents a dimension, the records carry more bytes after it
@@ -346,6 +630,9 @@ def compare(expected, got, raw):
         elif e[0] == "k":
             if g != ("k", e[1]):
                 return i
+        elif e[0] == "m":
+            if g != ("m",):
+                return i
         else:
             if g != ("e", e[1]):
                 return i
@@ -360,8 +647,10 @@ def parse_model(line):
             outs.append(("b", int(a), int(b)))
         elif t[0] == "k":
             outs.append(("k", int(t[1:])))
+        elif t == "-":
+            outs.append(("m",))
         else:
-            outs.append(("e", t[1:]))
+            outs.append(("e", "fault" if t[1:] == "EOther" else t[1:]))
     return outs
 
 
@@ -372,6 +661,9 @@ def compare_bytes(model, got, raw):
                 return i
         elif m[0] == "k":
             if g != ("k", m[1]):
+                return i
+        elif m[0] == "m":
+            if g != ("m",):
                 return i
         else:
             if g != ("e", m[1]):
@@ -389,12 +681,14 @@ _CASES = None
 def correspond(ctx):
     global _CASES
     ctx.extra["rule"] = ("random histories (1..24 ops) over {read_points(n), seek(pos, whence), next(chunk_iterator(k)) on iterators kept "
-                         "alive across ops, read()} with n/pos drawn around 0, +-1, count, count+-1, huge, as Python or numpy integers; files of every "
+                         "alive across ops, read(), any of these while the source raises once on its first read/readinto/seek of point data "
+                         "(caught, history goes on), caller operations on the LasData / header / point format / record handed out by earlier calls "
+                         "(add/remove extra dims, points replaced, header edits, write, convert)} with n/pos drawn around 0, +-1, count, count+-1, huge, as Python or numpy integers; files of every "
                          "(version, format) x counts {0,1,23,..} with/without trailing EVLRs, written by laspy or not: record length = standard size, "
                          "+ extra bytes documented exactly / partly / not at all by an ExtraBytes VLR, a VLR although the records carry none, bytes "
                          "after the last record, a gap before the EVLRs; opened through laspy.open(BytesIO | stream without readinto | path) and "
                          "LasReader(). The expected records are slices of the point array cut from the raw bytes with the header's own offset / "
-                         "record length / count. non-trivial = the history has a seek or an exhausted read; distinct by (file label, mode, history)")
+                         "record length / count. non-trivial = the history has a seek, a fault or a caller operation; distinct by (file label, mode, history)")
     _CASES = histories(ctx)
     # what the header model says about each file: count, record length (= the stride a faithful reader uses), offset
     files = {}
@@ -416,7 +710,7 @@ def correspond(ctx):
     cmds = []
     for raw, label, mode, ops in _CASES:
         off, L, n = view.get(id(raw), layout_of(raw)[1:])
-        cmds.append(f"brun {off} {L} {n} " + " ".join(op_tok(o) for o in ops))
+        cmds.append(f"bfrun {off} {L} {n} " + " ".join(model_tok(o) for o in ops))
     outs = common.run_model(cmds, name=DRIVER)
     for (raw, label, mode, ops), line in zip(_CASES, outs):
         model = parse_model(line)
@@ -427,20 +721,23 @@ def correspond(ctx):
             dis.append({"kind": "file cannot be opened", "input": {"file": label, "mode": mode_tok(mode)}, "model": "ok", "impl": repr(ex)[:200]})
             continue
         ctx.traces += 1
-        nontriv = any(o[0] == "S" for o in ops)
+        nontriv = any(o[0] in "SFM" for o in ops)
         ctx.case((label, mode_tok(mode), tuple(ops)), nontrivial=nontriv, sample={"file": label, "mode": mode_tok(mode), "ops": [op_tok(o) for o in ops], "model": line})
         for o in ops:
-            ctx.count("op:" + o[0])
+            ctx.count("op:" + (("fault-during-" + o[2][0] + ("" if fault_shows(o) else "(kind the op never meets)")) if o[0] == "F" else
+                               ("caller:" + CALLER_OPS[o[1] % len(CALLER_OPS)].__name__[3:]) if o[0] == "M" else o[0]))
         ctx.count("source:" + mode["source"])
         ctx.count("file:" + (label.split("/extra-bytes-")[1].split("/")[0] if "extra-bytes-" in label else label.split("/")[-1].split("-")[0] + "…"))
         for m in model:
             ctx.count("out:" + (m[1] if m[0] == "e" else m[0]))
+        if any(o[0] == "M" for o in ops) and any(o[0] == "A" for o in ops):
+            ctx.count("history:caller-operation-after-read()")
         if (facts["stride"], facts["offset"], facts["count"]) != (L, off, n):
             dis.append({"kind": "reader stride / offset / count", "input": {"file": label, "mode": mode_tok(mode)},
                         "model": {"stride": L, "offset": off, "count": n}, "impl": facts})
         bad = compare_bytes(model, impl, raw)
         if bad is not None:
-            dis.append({"kind": f"history op {op_tok(ops[bad])[0]}", "input": {"file": label, "mode": mode_tok(mode), "ops": [op_tok(o) for o in ops], "at": bad},
+            dis.append({"kind": f"history op {op_letter(ops[bad])}", "input": {"file": label, "mode": mode_tok(mode), "ops": [op_tok(o) for o in ops], "at": bad},
                         "model": model[bad], "impl": got_short(impl[bad], L)})
     return dis
 
@@ -469,6 +766,13 @@ def shrink(raw, ops, mode):
     return cur
 
 
+def legend(op):
+    if op[0] == "F":
+        return (f"{op_tok(op[2])} during which the source raises once on its next {'read/readinto of point data' if op[1] == 'r' else 'seek into the point data'}, "
+                "before consuming anything; the exception is caught and the history goes on")
+    return f"caller operation `{CALLER_OPS[op[1] % len(CALLER_OPS)].__name__[3:]}` on the {op[2]}-th most recent LasData returned by read() (chunk for wrap_chunk*)"
+
+
 def file_class(label):
     return label.split("/extra-bytes-")[1].split("/")[0] if "extra-bytes-" in label else label.split("/")[-1]
 
@@ -495,13 +799,14 @@ def search(ctx, seeds):
             continue
         small = shrink(raw, ops, mode)
         b2, got2 = fails(raw, small, mode)
-        kind = f"cursor: {' '.join(op_tok(o)[0] for o in small)}" + (f" [{file_class(label)}]" if "standard-size" not in label else "")
+        kind = f"cursor: {' '.join(op_letter(o) for o in small)}" + (f" [{file_class(label)}]" if "standard-size" not in label else "")
         if kind in seen:
             continue
         seen.add(kind)
         exp = spec_py(n, small)[b2]
         failing.append({"kind": kind, "input": {"file": label, "mode": mode, "points": n, "record_length": L, "offset_to_point_data": off,
-                                                "ops": [op_tok(o) for o in small], "file_hex": raw.hex()},
+                                                "ops": [op_tok(o) for o in small],
+                                                "ops_legend": {op_tok(o): legend(o) for o in small if o[0] in "FM"}, "file_hex": raw.hex()},
                         "observed": f"op #{b2} {op_tok(small[b2])}: expected {exp}" +
                                     (f" = bytes [{off + exp[1] * L}, {off + exp[2] * L}) of the file" if exp[0] == "s" else "") + f", got {got_short(got2[b2], L)}"})
         if len(failing) >= 5:
